@@ -38,7 +38,7 @@ LEVEL_NOTE = (
 TECHNIQUE = "deterministic simulation: stateful operation/fault histories against an executable memo-cell reference model (exhaustive short histories + seeded long ones)"
 DESIGN_REF = "DESIGN.md 4.9"
 BUDGET = {
-    "quick": {"plans": 1400, "wall": 70, "chunk": 10},
+    "quick": {"plans": 5000, "wall": 90, "chunk": 10},
     "thorough": {"plans": 40000, "wall": 900, "chunk": 16},
 }
 RULE = (
